@@ -86,7 +86,7 @@ void run_c06(const std::vector<std::vector<std::string>>& cases, vt::Rng& rng)
       const std::string& id = c.at(0);
       const std::string& sg = c.at(1);
       auto s = [&](int i) { return sg.at(i) == '-' ? -1.0 : 1.0; };
-      MssmPt p = vm::random_mssm(rng);
+      MssmPt p = rng.coin() ? vm::random_mssm(rng) : vm::wide_mssm(rng);
       p.Mu = s(0) * std::fabs(p.Mu); p.M1 = s(1) * std::fabs(p.M1); p.M2 = s(2) * std::fabs(p.M2);
       p.M3 = s(3) * std::fabs(p.M3);
       for (int i = 0; i < 3; ++i) {
@@ -266,7 +266,7 @@ void run_c04(const std::vector<std::vector<std::string>>& cases, vt::Rng& rng)
       p.vd = v / std::sqrt(1 + tb * tb); p.vu = p.vd * tb;
       auto sg = [&](int i) { return gs.at(i) == 'm' ? -1.0 : 1.0; };
       p.Mu = sg(0) * rng.logu(100, 3000); p.M1 = sg(1) * rng.logu(50, 3000); p.M2 = sg(2) * rng.logu(100, 3000); p.M3 = rng.sign() * rng.logu(500, 5000);
-      const double mA = rng.logu(200, 3000);
+      const double mA = rng.below(3) == 0 ? rng.logu(10, 90) : rng.logu(200, 3000);      // one third below MZ, MW (Goldstone reordering)
       p.BMu = mA * mA * tb / (1 + tb * tb) * (st == "negBmu" ? -1.0 : 1.0);
       const double mf_u[3] = {0.0022, 1.28, 165}, mf_d[3] = {0.0047, 0.096, 2.9}, mf_e[3] = {0.000511, 0.10566, 1.777};
       for (int i = 0; i < 3; ++i) {
